@@ -46,10 +46,13 @@ EntriesFrom(t, i0) ==
                         ELSE LET e == EntryAt(t, s) IN IF e.ok THEN More(e.next, Append(acc, <<e.name, e.decl>>)) ELSE acc
       first == EntryAt(t, i0)
   IN IF first.ok THEN More(first.next, << <<first.name, first.decl>> >>) ELSE <<>>
+\* the legend starts at the first occurrence of the marker from which a legend parses (a header followed by a line ending
+\* or the end of the text); an earlier occurrence inside a sentence or a quoted string belongs to the drawing
 SplitLegend(t) ==
-  LET loc == FindSub(t, LegendMark) he == IF loc = 0 THEN 0 ELSE HeaderEnd(t, loc) IN
-  IF loc = 0 \/ he = 0 THEN [drawing |-> t, rules |-> <<>>, found |-> FALSE]
-  ELSE [drawing |-> SubSeq(t, 1, loc - 1), rules |-> EntriesFrom(t, he), found |-> TRUE]
+  LET occ == { i \in 1..(Len(t) - Len(LegendMark) + 1) : SubSeq(t, i, i + Len(LegendMark) - 1) = LegendMark /\ HeaderEnd(t, i) # 0 }
+      loc == IF occ = {} THEN 0 ELSE SetMin(occ) IN
+  IF loc = 0 THEN [drawing |-> t, rules |-> <<>>, found |-> FALSE]
+  ELSE [drawing |-> SubSeq(t, 1, loc - 1), rules |-> EntriesFrom(t, HeaderEnd(t, loc)), found |-> TRUE]
 
 ------------------------------------------------------------------------
 (* stage 2: rows (str::lines: rows end at LF, one CR before the LF is dropped, a final line   *)
